@@ -38,10 +38,10 @@ def models(tier, seed):
             ("3 levels", cfg(5, seed % 5, N0=3, T0=2, MaxLev=3, MaxFine=1))]
 
 
-def build(chk, sc, cfgseed, axes):
+def build(chk, sc, cfgseed, axes, ext0=3, scale=(1, 2)):
     rng = random.Random(cfgseed)
     cfg_ = gamma.Config.draw(rng, ndims=3, payload="tame")
-    lat = lattice.Lattice(sc["mesh"], sc["n0"], sc["t0"], axes=axes, ext0=3, ext_cut=True, scale=(1, 2))
+    lat = lattice.Lattice(sc["mesh"], sc["n0"], sc["t0"], axes=axes, ext0=ext0, ext_cut=True, scale=scale)
     cn = axes[0]
 
     def affine(lv, shape):
